@@ -563,17 +563,21 @@ def _run_probes(d, lines):
     return results
 
 
-def _confirm_crash(ctx, case, res, d, data, label, what):
-    """a crash seen inside the forked harness counts only if the stand-alone tool reproduces it."""
+def _confirm_crash(ctx, case, res, d, data, label, what, ident=0):
+    """a crash / escaped exception seen in the long-running harness counts only if a FRESH process that does
+    nothing but load this one file shows it again (exceptions are then left uncaught, so the report carries
+    the stack of the throw)."""
     f = os.path.join(d, "crash-%s.in" % label)
     open(f, "wb").write(data)
-    r, dump = tools.idbdump([f])
+    exe = ifacegen.idbdrive_path()
+    sp = os.path.join(d, "crash-%s.script" % label)
+    open(sp, "w").write("probe x %s %d 4 1\n" % (ifacegen.hexs(f), ident))
+    r = core.run([exe, "--nocatch", sp], timeout=60)
     if r.timed_out:
         res.count("unconfirmed_hang")
         return
     if r.died() or r.asan_report():
-        res.violation(_crash_key(r), witness=what, prefix_len=len(data),
-                      got=r.err[-1200:])
+        res.violation(_crash_key(r), witness=what, prefix_len=len(data), got=r.err[-1500:])
     else:
         res.count("crash_not_reproduced")
 
